@@ -1,10 +1,12 @@
 import CoclsModel.Proto
 import CoclsModel.Storage
 import CoclsModel.StorageMt
+import CoclsModel.StorageSel
 /-! Driver for C19: runs the storage-policy models on the harness input (same grammar as harness/h_storage.cpp).
 
 `case <id> seq <policy> ex=<n> fs=<s0,...,s7> [p=<param>]`  — ops `alloc k sz | coro k kind | cdrop k kind |
 free id | fin id | kill id | newobj | bufset n`, `end`;
+`case <id> sel` — ops `coro <shape> <ids> <n> <sz> <t> | fin id | kill id`, `end` (which argument selects the storage);
 `case <id> sched <nthreads>` — ops `<tid> alloc sz | <tid> free id | <tid> go`, `end`. -/
 open Cocls Cocls.Proto Cocls.Storage
 
@@ -175,6 +177,79 @@ def seqEnd (q : SeqSt) : String :=
   let s2 := (step s1 Op.destroy).1
   line s!"end live={s2.heap.live.length} exlive={if s2.cfg.extra > 0 then s2.frames.length else 0} exbad=0" q.s.heap s2.heap
 
+/-! sel cases: which argument of the coroutine selects the storage -/
+
+def selShapes : List String :=
+  ["f:S", "f:SS", "f:D", "f:DS", "f:DSS", "f:SD", "f:OS", "f:OD", "f:SO", "m:S", "m:SS", "m:D", "m:DS", "m:SD",
+   "d:", "d:O", "d:S", "d:SS", "d:SO", "l:S", "l:DS"]
+
+/-- the argument list `operator new` sees for a coroutine of this shape: `*this` for members and lambdas, the declared
+parameters, the trailing `frame_rec *` of every harness coroutine; `none` when the ids do not match the shape -/
+def selArgs (shape : String) (ids : List Nat) : Option (List StorageSel.Arg) :=
+  if !selShapes.contains shape then none else
+  match shape.splitOn ":" with
+  | [entry, pat] =>
+      let (pre, ids) : List StorageSel.Arg × Option (List Nat) :=
+        if entry == "d" then
+          match ids with
+          | i :: r => ([StorageSel.Arg.derived (2 + i % 2)], some r)
+          | [] => ([], none)
+        else if entry == "f" then ([], some ids) else ([StorageSel.Arg.other], some ids)
+      match ids with
+      | none => none
+      | some ids =>
+          let rec go (cs : List Char) (ids : List Nat) (acc : List StorageSel.Arg) : Option (List StorageSel.Arg) :=
+            match cs, ids with
+            | [], [] => some (acc ++ [StorageSel.Arg.other])
+            | [], _ :: _ => none
+            | 'O' :: cs, ids => go cs ids (acc ++ [StorageSel.Arg.other])
+            | 'S' :: cs, i :: ids => go cs ids (acc ++ [StorageSel.Arg.stor (i % 2)])
+            | 'D' :: cs, i :: ids => go cs ids (acc ++ [StorageSel.Arg.derived (2 + i % 2)])
+            | _, _ => none
+          go pat.toList ids pre
+  | _ => none
+
+structure SelSt where
+  s : StorageSel.State := {}
+  poisoned : Bool := false
+
+def selOp (q : SelSt) (ws : List String) : SelSt × String :=
+  if q.poisoned then (q, "poisoned") else
+  match ws with
+  | ["coro", shape, ids, _n, sz, t] =>
+      let idl := if ids == "-" then some [] else
+        (ids.splitOn ",").foldr (fun w acc => match w.toNat?, acc with | some n, some l => some ((n % 4) :: l) | _, _ => none) (some [])
+      match idl.bind (selArgs shape), sz.toNat?, t.toNat? with
+      | some args, some sz, some t =>
+          if q.s.frames.any (fun f => f.obj == t % 4) then (q, "skip") else
+          match StorageSel.stepCoro q.s args sz with
+          | (s', StorageSel.Res.coro id k blk) =>
+              if q.s.frames.any (fun f => f.obj == k) then
+                -- the storage hands its block to a second frame (contract broken by the caller): the harness stops the case
+                let grown := sz > q.s.cap k
+                let s1 := StorageSel.rsAlloc q.s k sz
+                ({ s := { s1 with nextFrame := s1.nextFrame + 1 }, poisoned := true },
+                 line (s!"coro#{id} sz={sz} sel={k} at={blkStr blk} BUSY" ++ (if !grown && sz > 0 then " OVERLAP" else "")) q.s.heap s1.heap)
+              else
+                ({ q with s := s' }, line s!"coro#{id} sz={sz} sel={k} at={blkStr blk} in=1" q.s.heap s'.heap)
+          | _ => (q, "skip")
+      | _, _, _ => (q, "skip")
+  | [how, id] =>
+      if how == "fin" || how == "kill" then
+        match id.toNat? with
+        | some id =>
+            match StorageSel.stepFree q.s id with
+            | (s', StorageSel.Res.free _) =>
+                ({ q with s := s' }, if how == "kill" then s!"kill#{id} cn=ok freed=ok" else s!"fin#{id} cn=ok body=ok freed=ok")
+            | _ => (q, "skip")
+        | none => (q, "skip")
+      else (q, "skip")
+  | _ => (q, "skip")
+
+def selEnd (q : SelSt) : String :=
+  let s1 := [0, 1, 2, 3].foldl (fun s k => (StorageSel.stepDestroy s k).1) { q.s with frames := [] }
+  line s!"end live={s1.heap.live.length}" q.s.heap s1.heap
+
 /-! sched cases -/
 
 def mtLine (head : String) (before after : Heap) : String := line head before after
@@ -244,6 +319,7 @@ inductive Mode where
   | none
   | seq (q : SeqSt)
   | sched (s : Mt.State) (nt : Nat)
+  | sel (q : SelSt)
   | swallow
 
 partial def loop (lines : Array String) (i : Nat) (m : Mode) : IO Unit := do
@@ -259,6 +335,9 @@ partial def loop (lines : Array String) (i : Nat) (m : Mode) : IO Unit := do
         match parsePolicy pol p a with
         | some pl => loop lines (i+1) (Mode.seq { s := init { pol := pl, extra := ex }, fs := fs })
         | none => IO.println "bad-policy"; loop lines (i+1) Mode.swallow
+    | ("case" :: id :: "sel" :: _), _ =>
+        IO.println s!"case {id}"
+        loop lines (i+1) (Mode.sel {})
     | ("case" :: id :: "sched" :: nt :: _), _ =>
         IO.println s!"case {id}"
         loop lines (i+1) (Mode.sched Mt.init (max 1 (min 8 (nt.toNat?.getD 1))))
@@ -268,12 +347,17 @@ partial def loop (lines : Array String) (i : Nat) (m : Mode) : IO Unit := do
         loop lines (i+1) Mode.swallow
     | ["end"], Mode.seq q => IO.println (seqEnd q); loop lines (i+1) Mode.none
     | ["end"], Mode.sched s nt => IO.println (schedEnd s nt); loop lines (i+1) Mode.none
+    | ["end"], Mode.sel q => IO.println (selEnd q); loop lines (i+1) Mode.none
     | ["end"], _ => loop lines (i+1) Mode.none
     | [], _ => loop lines (i+1) m
     | _, Mode.seq q =>
         let (q', out) := seqOp q ws
         IO.println out
         loop lines (i+1) (Mode.seq q')
+    | _, Mode.sel q =>
+        let (q', out) := selOp q ws
+        IO.println out
+        loop lines (i+1) (Mode.sel q')
     | _, Mode.sched s nt =>
         let (s', out) := schedOp s nt ws
         IO.println out
